@@ -89,6 +89,19 @@ CLAIMED.update({
             "sequence argument, so equal extracted arrays give equal results (by the code's data flow, not "
             "re-proved). Exact reals; replays use the public API at non-integer factors.",
             TECH + "; two-run relational (product) encoding", "4/C07"),
+    "C08": ("Two-run non-interference on 7 real skeletons (<= 3 trees, incl. multiply-hit sites and diploid "
+            "individuals) with symbolic genome coordinates shared by both runs: the input and a copy that "
+            "agrees only on edges, node times, sample flags, mutation positions / nodes (and individuals "
+            "when unphased) and differs in all metadata, allele states, populations, individuals, other "
+            "flag bits, mutation times, provenance, schema and 0-2 extra mutation-free sites. z3 proves all "
+            "arrays derived by the real ExpectationPropagation.__init__ (phased and unphased), the "
+            "posteriors of InsideOutsideMethod.run / MaximizationMethod.run (both spaces) and the "
+            "SpansBySamples tables equal, and a recording proxy shows no attribute outside the model's "
+            "allow-list is read on any path.",
+            "The perturbed twin is one fixed perturbation per skeleton (not every possible one); reading of "
+            "individuals in the phased case is allowed (masked out by the code) and covered by the "
+            "comparison. Variational part at the data-extraction layer as for C07.",
+            TECH + "; two-run relational (product) encoding with access recording", "4/C08"),
     "C19": ("For every positive real x (symbolic, piecewise over the axis) z3 proves the executed arithmetic of "
             "_digamma/_trigamma equal to the exact recurrence plus the Stirling series with exact Bernoulli "
             "coefficients (to 1e-16) and bounds the first omitted term where the series is used (1e-14 / 1e-11 "
